@@ -15,6 +15,7 @@ from __future__ import annotations
 
 import json
 import math
+import os
 import random
 import re
 import shutil
@@ -557,7 +558,9 @@ def _run(tier, seed, v, cases):
     from . import c04_omega
 
     rng = random.Random(seed)
-    budget = {"quick": (1500, 1500), "thorough": (30000, 30000)}[tier]
+    budget = {"quick": (1300, 1300), "thorough": (30000, 30000)}[tier]
+    scale = float(os.environ.get("VERIF_BUDGET_SCALE", "1"))  # < 1 only for fast mutant screening
+    budget = (max(50, int(budget[0] * scale)), max(50, int(budget[1] * scale)))
     th, n_th_strata = _stratified(cases["Theta"], _theta_stratum, budget[0], rng)
     om, n_om_strata = _stratified(cases["Omega"], c04_omega.stratum, budget[1], rng)
     work = [("Theta", c) for c in th] + [("Omega", c) for c in om]
@@ -602,7 +605,7 @@ def main(tier: str, seed: int) -> int:
     ]
     cases = _tlc_all(tier, seed, v)
     _run(tier, seed, v, cases)
-    return v.finish(min_traces=500 if tier == "quick" else 5000)
+    return v.finish(min_traces=(500 if tier == "quick" else 5000) if float(os.environ.get("VERIF_BUDGET_SCALE", "1")) >= 1 else 20)
 
 
 def replay(path: str) -> int:
